@@ -146,8 +146,21 @@ def make_cons(spec, D):
 # --------------------------------------------------------------------------
 # options normalisation
 # --------------------------------------------------------------------------
+def _outfcn_stop(x, state):
+    return True
+
+
+def _outfcn_never(x, state):
+    return False
+
+
 def build_options(sc):
     o = dict(sc.get("options", {}))
+    of = o.pop("_output_fcn", None)
+    if of == "stop_init":
+        o["output_fcn"] = _outfcn_stop
+    elif of == "never":
+        o["output_fcn"] = _outfcn_never
     o.setdefault("display", "off")
     o.setdefault("random_seed", int(sc.get("seed", 0)))
     mode = sc.get("noise", {}).get("mode", "det")
